@@ -2,6 +2,7 @@ package c14
 
 import (
 	"bytes"
+	"encoding/binary"
 	"fmt"
 	"sort"
 	"strings"
@@ -121,8 +122,77 @@ func buildPool() []*poolFont {
 				break
 			}
 		}
+		addSyntheticCollection()
 	})
 	return pool
+}
+
+// addSyntheticCollection packs three single-face pool fonts of different families into
+// one .ttc (the corpus collections hold faces of one family that decode alike): AddFont
+// on it must register each member under its own index and answer with the member's face.
+func addSyntheticCollection() {
+	var donors []*poolFont
+	fams := map[string]bool{}
+	for _, pf := range pool {
+		if pf.NFaces != 1 || len(pf.Data) < 12 || string(pf.Data[:4]) == "ttcf" || string(pf.Data[:4]) == "wOFF" || fams[pf.Desc.Family] {
+			continue
+		}
+		if tag := string(pf.Data[:4]); tag != "OTTO" && tag != "\x00\x01\x00\x00" && tag != "true" {
+			continue
+		}
+		fams[pf.Desc.Family] = true
+		donors = append(donors, pf)
+		if len(donors) == 3 {
+			break
+		}
+	}
+	if len(donors) < 2 {
+		return
+	}
+	var members [][]byte
+	for _, d := range donors {
+		members = append(members, d.Data)
+	}
+	ttc := buildTTC(members)
+	lds, err := ot.NewLoaders(bytes.NewReader(ttc))
+	if err != nil || len(lds) != len(donors) {
+		return
+	}
+	const fileID = "synth/collection-1.ttc"
+	for i, d := range donors {
+		ft, err := font.NewFont(lds[i])
+		if err != nil {
+			return
+		}
+		cp := *d
+		cp.ID, cp.FileID, cp.Index, cp.Abs = fmt.Sprintf("%s#%d", fileID, i), fileID, i, ""
+		cp.Data, cp.Font, cp.NFaces = ttc, ft, len(donors)
+		pool = append(pool, &cp)
+		poolByID[cp.ID] = &cp
+	}
+}
+
+// buildTTC concatenates sfnt files into a collection (table offsets rebased).
+func buildTTC(members [][]byte) []byte {
+	out := make([]byte, 12+4*len(members))
+	copy(out, "ttcf")
+	binary.BigEndian.PutUint32(out[4:], 0x00010000)
+	binary.BigEndian.PutUint32(out[8:], uint32(len(members)))
+	for i, m := range members {
+		for len(out)%4 != 0 {
+			out = append(out, 0)
+		}
+		pos := len(out)
+		binary.BigEndian.PutUint32(out[12+4*i:], uint32(pos))
+		out = append(out, m...)
+		n := int(binary.BigEndian.Uint16(m[4:]))
+		for t := 0; t < n; t++ {
+			e := pos + 12 + 16*t
+			off := binary.BigEndian.Uint32(out[e+8:])
+			binary.BigEndian.PutUint32(out[e+8:], off+uint32(pos))
+		}
+	}
+	return out
 }
 
 func poolGet(id string) (*poolFont, error) {
